@@ -273,10 +273,32 @@ def r17c(ck, prog):
             ck.violation("R17c", "R17c/%s/omp" % x.fn.name, site(prog, x), "OpenMP directive `omp %s` in the comparison code" % x.d["omp"], prog.config)
 
 
-def r17e(ck, prog):
-    """each loop of compare_pair that walks the rows of one alignment runs to that alignment's own length: the rows and
-    lengths that belong together are taken from the call in kalign_msa_compare (arguments rooted at the same msa)"""
+def _row_loops(G):
+    """[(loop, row parameter dids subscripted by the loop variable, int parameter dids in the bound)] of function G"""
     from ..affine import loop_range
+    pr = {p_["did"]: p_ for p_ in G.params}
+    out = []
+    for lp in G.body.find("ForStmt"):
+        rng = loop_range(lp)
+        if rng is None:
+            continue
+        var = rng[0]
+        used = set()
+        for sub in lp.child("body").find("ArraySubscriptExpr"):
+            b_, i_ = sub.kids[0].strip(casts=True), sub.kids[1].strip(casts=True)
+            if b_.k == "DeclRefExpr" and b_.d.get("did") in pr and pr[b_.d["did"]]["ty"].replace("const ", "").replace(" ", "") == "char*" \
+                    and i_.k == "DeclRefExpr" and i_.d["name"] == var:
+                used.add(b_.d["did"])
+        if used:
+            bound = {r.d["did"] for r in lp.child("cond").find("DeclRefExpr") if r.d.get("did") in pr and pr[r.d["did"]]["ty"].replace("const ", "") == "int"}
+            out.append((lp, used, bound))
+    return out
+
+
+def r17e(ck, prog):
+    """each loop that walks the rows of one alignment runs to that alignment's own length: the rows and lengths that belong
+    together are taken from the call in kalign_msa_compare (arguments rooted at the same msa) and followed through the
+    private helpers compare_pair hands them to"""
     K, P = prog.fn("kalign_msa_compare"), prog.fn("compare_pair")
     calls = list(K.body.calls("compare_pair"))
     if len(calls) != 1:
@@ -285,38 +307,41 @@ def r17e(ck, prog):
     for i, a in enumerate(calls[0].args):
         roots = [r.d["name"] for r in a.find("DeclRefExpr") if r.ty.replace("const ", "").startswith("struct msa")]
         if len(set(roots)) == 1 and i < len(P.params):
-            owner[P.params[i]["did"]] = (roots[0], P.params[i]["name"], P.params[i]["ty"])
-    rows = {d: o for d, o in owner.items() if o[2].replace("const ", "").strip() in ("char *", "char*")}
-    lens = {d: o for d, o in owner.items() if o[2].replace("const ", "").strip() == "int"}
-    if len(rows) < 4 or len(lens) < 2:
-        raise AnalysisBroken("R17e slot: row / length parameters of compare_pair not resolved (%d rows, %d lengths)" % (len(rows), len(lens)))
+            owner[P.params[i]["did"]] = roots[0]
+    if len(owner) < 6:
+        raise AnalysisBroken("R17e slot: row / length arguments of compare_pair not resolved (%d)" % len(owner))
     n = 0
-    for lp in P.body.find("ForStmt"):
-        rng = loop_range(lp)
-        if rng is None:
+
+    def check(G, own, via):
+        nonlocal n
+        names = {p_["did"]: p_["name"] for p_ in G.params}
+        for lp, used, bound in _row_loops(G):
+            if not bound:
+                raise AnalysisBroken("R17e: the loop over %s at line %d of %s is not bounded by a length parameter" % (sorted(names[d] for d in used), lp.line, G.name))
+            if any(d not in own for d in used | bound):
+                raise AnalysisBroken("R17e: owner of %s in %s%s not resolved" % (sorted(names[d] for d in (used | bound) if d not in own), G.name, via))
+            n += 1
+            ro, lo = {own[d] for d in used}, {own[d] for d in bound}
+            where = site(prog, lp, "loop over %s" % "/".join(sorted(names[d] for d in used)))
+            ck.inst("R17e", where, "%s%s walks %s (alignment %s) up to %s (alignment %s)" % (
+                G.name, via, sorted(names[d] for d in used), sorted(ro), sorted(names[d] for d in bound), sorted(lo)), prog.config)
+            if ro != lo:
+                ck.violation("R17e", "R17e/%s/%s" % (G.name, "+".join(sorted(names[d] for d in used))), where,
+                             "%s%s walks %s, rows of alignment '%s', up to %s, the length of alignment '%s': when the two alignments "
+                             "have different numbers of columns the relations of the longer one are cut off (score too low) or the shorter one "
+                             "is read past its end" % (G.name, via, sorted(names[d] for d in used), "/".join(sorted(ro)), sorted(names[d] for d in bound), "/".join(sorted(lo))),
+                             prog.config)
+    check(P, owner, "")
+    for c in P.body.calls():
+        H = prog.functions.get(c.callee) if c.callee else None
+        if H is None or H.body is None or not H.static or H.file != P.file or not _row_loops(H):
             continue
-        var = rng[0]
-        used_rows = set()
-        for sub in lp.child("body").find("ArraySubscriptExpr"):
-            b, i = sub.kids[0].strip(casts=True), sub.kids[1].strip(casts=True)
-            if b.k == "DeclRefExpr" and b.d["did"] in rows and i.k == "DeclRefExpr" and i.d["name"] == var:
-                used_rows.add(b.d["did"])
-        if not used_rows:
-            continue
-        bound = {r.d["did"] for r in lp.child("cond").find("DeclRefExpr") if r.d["did"] in lens}
-        n += 1
-        ro, lo = {rows[d][0] for d in used_rows}, {lens[d][0] for d in bound}
-        where = site(prog, lp, "loop over %s" % "/".join(sorted(rows[d][1] for d in used_rows)))
-        ck.inst("R17e", where, "compare_pair walks %s (alignment %s) up to %s (alignment %s)" % (
-            sorted(rows[d][1] for d in used_rows), sorted(ro), sorted(lens[d][1] for d in bound), sorted(lo)), prog.config)
-        if not bound:
-            raise AnalysisBroken("R17e: the loop over %s at line %d is not bounded by a length parameter" % (sorted(rows[d][1] for d in used_rows), lp.line))
-        if ro != lo:
-            ck.violation("R17e", "R17e/compare_pair/%s" % "+".join(sorted(rows[d][1] for d in used_rows)), where,
-                         "compare_pair walks %s, rows of alignment '%s', up to %s, the length of alignment '%s': when the two alignments "
-                         "have different numbers of columns the relations of the longer one are cut off (score too low) or the shorter one "
-                         "is read past its end" % (sorted(rows[d][1] for d in used_rows), "/".join(sorted(ro)), sorted(lens[d][1] for d in bound), "/".join(sorted(lo))),
-                         prog.config)
+        own = {}
+        for i, a in enumerate(c.args):
+            a0 = a.strip(casts=True)
+            if a0.k == "DeclRefExpr" and a0.d.get("did") in owner and i < len(H.params):
+                own[H.params[i]["did"]] = owner[a0.d["did"]]
+        check(H, own, " (called at line %d)" % c.line)
     ck.floor("R17e", n, 2, "row-walking loops of compare_pair")
 
 
